@@ -283,6 +283,15 @@ def check_bs(case, ctx):
     np.random.seed(seed)          # the harness' own (re-)seeding must not show up as a shared-state write
     before = snapshot()
     b1 = call(run_batch, name, kw, g, a, m, seed, order)
+    if name == "UKF" and not b1.ok and b1.exc_name == "LinAlgError":
+        # UKF's covariance breaks down on many histories (a recorded C03 finding): the comparison is then made on the longest head of the recording
+        # it survives (half, a quarter, ... down to three samples), so that the batch and streamed UKF are compared in every case
+        for kcut in [k_ for k_ in (len(g) // 2, len(g) // 4, 6, 4, 3) if 3 <= k_ < len(g)]:
+            bt = call(run_batch, name, kw, g[:kcut], a[:kcut], m[:kcut], seed, order)
+            if bt.ok:
+                ctx.note("UKF raised LinAlgError on the full history: judged on its first %d samples" % kcut)
+                g, a, m, b1 = g[:kcut], a[:kcut], m[:kcut], bt
+                break
     if name in EXTRA:        # something else runs in between (fills and frees memory of the same sizes)
         call(run_batch, "Complementary/MARG", {}, g[::-1] * 3.0, a[::-1] + 0.5, m[::-1] * 2.0, seed, order)
         _ = [np.full((len(g), 3), 7.5) for _ in range(3)]
